@@ -423,8 +423,9 @@ Definition calcfg (s : st) (p : list Z) : st * list out :=
   let dsize := le32 p REQ_OFF_DATASIZE in
   if cmd =? CMD_ENTER_CFG_MODE then
     if auth =? 1 then
-      (* the DONE result is queued but the srpc instance is freed by devconn_stop before it is written *)
-      cfgmode_start (set_exit_to s true)
+      (* the DONE result is queued first; srpc_iterate writes it after the handler returned (the srpc instance is
+         freed by a deferred timer since the fix "do not free the srpc instance while srpc_iterate is still running") *)
+      let '(s', o) := cfgmode_start (set_exit_to s true) in (s', o ++ send_result s sender ch cmd RES_DONE)
     else (s, send_result s sender ch cmd RES_UNAUTHORIZED)
   else if (cmd =? CMD_RECALIBRATE) && (((dtype =? DATATYPE_RS_SETTINGS) && (dsize =? RSSET_SIZE)) || (dtype =? 0)) then
     let wt := (dtype =? DATATYPE_RS_SETTINGS) && (dsize =? RSSET_SIZE) in
